@@ -277,6 +277,14 @@ REGISTRY = {
                         "the theorems describe the directory states an interrupted Merge / adoption can leave (marker absent: anything in the merge directory; marker present: rewritten files j..n-1 still to move, hint moved or not); that the event-level crash images of the model (Crash.v) and of the real engine at every single event are such states is established by running both on every image (this run), not by a theorem",
                         "every image is opened twice by the real engine (second Open = retry after recovery / second adoption attempt) and by the model; a crash during the retry is covered by the theorem's quantification over all states of the family"],
     },
+    "C20": {
+        "corr": lambda tier, seed: corr_engine("C20", tier, seed, "backups,backupcycle,restarts,batches,merges,bigvals", 120, 3000, ops=35,
+                                               dflags="-noevents -skip stat,pos", oracle_props=["C20", "C02", "C01", "C06"]),
+        "assumptions": ["the theorems are about Backup into a fresh directory; refreshing an existing backup directory (files overwritten, others kept) is driver glue compared with the implementation and judged by the reference oracle only",
+                        "CopyDir copies the bytes the files have at that moment (their physical size: C20_physical_size_invariant says it is the logical size under standard I/O; under MMap Backup cuts the files back first)",
+                        "the directory lock is not part of the engine model (C16); the generated scenarios open every copy (while the source directory exists) under an independently chosen configuration and write to it",
+                        "file-system calls do not fail"],
+    },
     "C13": {
         "corr": lambda tier, seed: corr_engine("C13", tier, seed, "restarts,batches,merges,bigvals", 160, 4000, ops=30,
                                                dflags="", oracle_props=["C13"]),
